@@ -1,0 +1,18 @@
+//! Verification-only instrumentation, compiled only with the `verif_hooks` feature.
+//! A process-global callback is invoked at stage boundaries of a compilation so that an
+//! external explorer can insert scheduling points or record the stage sequence.
+use std::sync::OnceLock;
+
+static HOOK: OnceLock<fn(&'static str)> = OnceLock::new();
+
+/// Registers the callback (first registration wins).
+pub fn set_hook(f: fn(&'static str)) -> bool {
+    HOOK.set(f).is_ok()
+}
+
+#[inline]
+pub fn point(label: &'static str) {
+    if let Some(f) = HOOK.get() {
+        f(label)
+    }
+}
